@@ -22,7 +22,7 @@ NUMBERS = [0, 1, -1, 2, 7, 8, 63, 64, 100, 101, 127, 128, 150, 254, 255, 256, 36
            1e10, 1e38, 3.5e38, 1e39, -1e39, float("inf"), float("-inf"), float("nan")]
 TEXTS = ["", "a", "abc", "a" * 14, "a" * 15, "ä" * 7, "ä" * 14, "€", "\x00", "auto", "comfort", "Comfort", "heat", "on", "1"]
 FOREIGN = [None, {}, {"a": 1}, [], [1, 2], (1, 2, 3), b"\x01\x02", object, True, False]
-LISTS = [[], [0], [255], [256], [-1], [1.5], [1.0, 2.0], (255.0,), [True], [300, -1], [0] * 14, [255] * 15, [1] * 253, [1] * 254, [1] * 255, [1] * 256, (1, 2), (256,), b"", b"\x00", bytes(range(20)), ["1"], [None]]
+LISTS = [[], [0], [255], [256], [-1], [1.5], [1.0, 2.0], (255.0,), [True], [300, -1], [0] * 14, [255] * 15, [1] * 253, [1] * 254, [1] * 255, [1] * 256, (1, 2), (256,), b"", b"\x00", bytes(range(20)), bytes(253), bytes(254), bytes(300), bytearray(b"\x01\x02"), bytearray(254), ["1"], [None]]
 
 
 def vkind_for(value, wants):
@@ -35,7 +35,7 @@ def vkind_for(value, wants):
         return "number" if "float" in wants else "foreign"
     if isinstance(value, str):
         return "text" if "text" in wants else "foreign"
-    if isinstance(value, (list, tuple, bytes)):
+    if isinstance(value, (list, tuple, bytes)):      # a bytearray is no documented payload form: foreign
         return "struct" if "list" in wants and all(isinstance(x, int) and not isinstance(x, bool) for x in value) else "foreign"
     return "foreign"
 
@@ -202,9 +202,20 @@ def run(ck):
         for desc, fn in setters:
             for v in pool:
                 one("device", desc, lambda fn=fn, v=v: fn(v), v, {"text"} if "Notification" in desc else {"int"} if "RawValue" in desc else {"int", "float"})
-        for color in [(0, 0, 0), (255, 255, 255), (256, 0, 0), (-1, 0, 0), (1.5, 2, 3), (10.0, 20.0, 30.0), (True, False, True), (1, 2), (1, 2, 3, 4)]:
-            one("device", "Light.set_color", lambda c=color: light.set_color(c), list(color), set())
-            one("device", "Light.set_color(rgbw)", lambda c=color: light.set_color(c, 300), list(color), set())
+        # a light with one switch / brightness pair per colour: one setter call is several telegrams - all of them or none
+        ind = {f"group_address_{k}_{c}": f"2/{i}/{j}" for i, c in enumerate(("red", "green", "blue", "white")) for j, k in enumerate(("switch", "brightness"))}
+        light_ind = Light(xknx, "li", **ind)
+        light_rgb = Light(xknx, "l3", **{k: v for k, v in ind.items() if "white" not in k})
+        colors = [(0, 0, 0), (255, 255, 255), (256, 0, 0), (-1, 0, 0), (1.5, 2, 3), (10.0, 20.0, 30.0), (True, False, True), (1, 2), (1, 2, 3, 4),
+                  (0, 256, 0), (0, 0, 256), (1, 2, -1), (1, 2.5, 3), (1, 2, None), (1, "2", 3)]
+        for color in colors:
+            for w in (0, 255, 300, -1, 2.5):
+                one("device", f"Light.set_color(rgbw, white={w})", lambda c=color, w=w: light.set_color(c, w), list(color), set())
+                one("device", f"Light(individual colours).set_color(white={w})", lambda c=color, w=w: light_ind.set_color(c, w), list(color), set())
+            for lt, ln in ((light, "Light"), (light_ind, "Light(individual colours)"), (light_rgb, "Light(individual colours, no white)")):
+                one("device", ln + ".set_color", lambda c=color, lt=lt: lt.set_color(c), list(color), set())
+        for hs in [(0, 0), (360, 100), (10, 150), (400, 50), (-1, 50), (10, -1), (10.5, 20.5), (10, None), (None, 10), (10, "x"), (361, 101)]:
+            one("device", "Light.set_hs_color", lambda c=hs: light.set_hs_color(c), list(hs), set())
     finally:
         loop.close()
         asyncio.set_event_loop(None)
